@@ -82,6 +82,7 @@ def gen(seed, tier="quick"):
     decl = ic.choice([0.0, ic.uniform(-math.pi, math.pi), ic.uniform(-0.5, 0.5)])
     incl = ic.uniform(-1.3, 1.3)
     mag_str = knobs.uniform(0.05, 0.65)
+    g_cfg = knobs.choice([9.8, 9.8, 9.80665, 9.78, 9.81, knobs.uniform(9.3, 10.3)])  # configured gravity: peer and node agree on it
     B_n = rm.Rz(decl) @ rm.Ry(-incl) @ np.array([mag_str, 0, 0])
     bias = [ic.uniform(-0.1, 0.1) for _ in range(3)]
 
@@ -145,7 +146,7 @@ def gen(seed, tier="quick"):
         f = []
         if tk >= gap_until:
             gyro = w + np.array(bias)
-            accel = R.T @ np.array([0, 0, -G])
+            accel = R.T @ np.array([0, 0, -g_cfg])
             tag = None
             r = flt.random()
             if r < rate:
@@ -157,7 +158,12 @@ def gen(seed, tier="quick"):
             t_pub = tk
             m = {"kind": "imu", "t_pub": t_pub, "ts": ts, "gyro": gyro.tolist(), "accel": accel.tolist(), "fault": tag, "q_true": q.tolist()}
             if tag == "sensor_scale":
-                m["accel"] = (accel * flt.choice([0.0, 0.5, 0.85, 0.895, 0.9, 1.1, 1.105, 1.2, 3.0, 100.0])).tolist()
+                if flt.random() < 0.5:
+                    m["accel"] = (accel * flt.choice([0.0, 0.5, 0.85, 0.895, 0.9, 1.1, 1.105, 1.2, 3.0, 100.0])).tolist()
+                else:
+                    # magnitudes around the +-1 gate of the configured gravity and of the nominal 9.8
+                    target = flt.choice([g_cfg - 1.02, g_cfg - 0.98, g_cfg + 0.98, g_cfg + 1.02, 8.78, 8.82, 10.78, 10.82, 9.8 - flt.uniform(0.5, 1.5), 9.8 + flt.uniform(0.5, 1.5)])
+                    m["accel"] = (accel * (target / g_cfg)).tolist()
             elif tag == "sensor_offset":
                 m["accel"] = (accel + flt.choice([0.5, 2.0, 20.0]) * _rand_unit(flt)).tolist()
             elif tag == "sensor_spike":
@@ -281,7 +287,7 @@ def gen(seed, tier="quick"):
         "tf": tf,
         "initialize": True if init_run else ic.random() < 0.5,
         "decl": decl, "incl": incl, "mag_str": mag_str,
-        "params": {"mrp/mag_decl": decl,
+        "params": {"mrp/mag_decl": decl, "mrp/g": g_cfg,
                    "mrp/dt_min_accel": knobs.choice([0.0, 1 / 200, 0.01, 0.02, 0.05]),
                    "mrp/dt_min_mag": knobs.choice([0.0, 1 / 200, 0.02, 0.05, 0.1]),
                    "logger/dt": knobs.choice([1 / 200, 1 / 50, 1 / 10])},
@@ -472,7 +478,8 @@ def run(scn):
                 if which == "accel":
                     gpar = float(args[3])
                     ny = float(np.linalg.norm(y))
-                    if np.isfinite(ny) and abs(ny - gpar) > 1.0 + 1e-9:
+                    # "grossly wrong": the shipped gate is g +- 1; only magnitudes clearly beyond it (1.5) are demanded
+                    if np.isfinite(ny) and abs(ny - gpar) > 1.5:
                         probes["gross_accel_in_domain"] += 1
                         violation("C11", "gross_accel_accepted", "eqs['mrp'].correct_accel",
                                   "an accelerometer vector of norm %r (g=%r) was accepted (code 0)" % (ny, gpar))
